@@ -370,7 +370,7 @@ class Result:
 
 def run_shards(binary, nshards, args, seed, tier, timeout, env=None, outdir=None, result=None, pid="?"):
     """Run `binary --shard i/n --seed S --tier T --out file args...` for all shards in parallel."""
-    outdir = outdir or os.path.join(SCRATCH, "out", "%s-%d" % (pid, os.getpid()))
+    outdir = outdir or os.path.join(SCRATCH, ".out", "%s-%d" % (pid, os.getpid()))
     shutil.rmtree(outdir, ignore_errors=True)
     os.makedirs(outdir)
     e = dict(os.environ)
